@@ -111,7 +111,8 @@ def generate(seed: int, tier: str) -> Dict[str, Any]:
                 ops.append({"op": "end", "flush": r.chance(0.8)})
                 depth -= 1
             else:
-                ops.append({"op": "write", "file": r.choice(["t1.jsonl", "t1.jsonl", "scheduler.jsonl", "custom.jsonl"]), "payload": _record(r, 0, n)})
+                ops.append({"op": "write", "file": r.choice(["t1.jsonl", "t1.jsonl", "scheduler.jsonl", "custom.jsonl"]), "payload": _record(r, 0, n),
+                            "via": r.choice(["append", "append", "mux"]), "late": r.chance(0.3)})
                 n += 1
         while depth > 0:
             ops.append({"op": "end", "flush": True})
@@ -535,7 +536,16 @@ def _capture(p: Dict[str, Any], stats: Dict[str, int]) -> List[Dict[str, Any]]:
                         for f, i in held:
                             model_write(f, i)
                 else:
-                    append_jsonl(op["file"], dict(op["payload"]))
+                    rec = copy.deepcopy(dict(op["payload"]))
+                    if op.get("via") == "mux":
+                        lmux.write_or_buffer(op["file"], rec)    # the capture-aware call point the mux module offers
+                        stats["writes_via_mux_call_point"] = stats.get("writes_via_mux_call_point", 0) + 1
+                    else:
+                        append_jsonl(op["file"], rec)
+                    if op.get("late"):
+                        # the writer goes on using its object: what was logged is the record as it was when it was logged
+                        rec["i"] = 10_000 + int(op["payload"]["i"])
+                        rec.setdefault("durations_ms", {})["late"] = 1.0
                     model_write(op["file"], int(op["payload"]["i"]))
         finally:
             while stack:
